@@ -146,7 +146,8 @@ class Conn:
                 else:
                     asyncio.get_event_loop().call_later(d / 1000, self.lose)
             return  # any later request on the cut connection before the event: the peer is already mute
-        self.feed(b"".join(f for _, f in reply_frames(w.tr, data, [final(self.idx)])))
+        answer = bytes.fromhex("7e00") if data[:1] == b"\x3e" else final(self.idx)   # TesterPresent (ECU.ping) / the request
+        self.feed(b"".join(f for _, f in reply_frames(w.tr, data, [answer])))
 
     def feed(self, data: bytes):
         if data and self.lost is None and not self.reader.at_eof() and self.reader.exception() is None:
